@@ -5,6 +5,26 @@ import vlib, parts_multi, parts_subject, tracecheck
 PID = 'C05'
 
 
+def conc_model_part(rep):
+    """Level 2: ConcImpl.tla - CombineLatest2 and Zip2 at the grain of the code under two concurrent producers.  The library emits after releasing the
+    operator's lock (or without one): TLC is EXPECTED to find runs that no arrival order explains (the counterexamples behind the known concurrent findings,
+    which MultiLin.tla reports on recorded runs of the real operators); with the emission inside the critical section Explained holds."""
+    for cfgname in ['ConcImpl_combinelatest_atomic.cfg', 'ConcImpl_zip_atomic.cfg', 'ConcImpl_zip_safe.cfg']:
+        r = vlib.run_tlc('ConcImpl', cfgname, timeout=600, deadlock=False)
+        vlib.tlc_must_pass(r, cfgname)
+        rep.add_states(r)
+        rep.parts['tlc:' + cfgname] = dict(ok=r.ok, violated=r.violation, generated=r.generated, distinct=r.distinct)
+        if r.violation:
+            rep.inconclusive.append('Level-2 model %s violates %s (model only)' % (cfgname, r.violation))
+    for cfgname in ['ConcImpl_combinelatest.cfg', 'ConcImpl_zip.cfg']:
+        r = vlib.run_tlc('ConcImpl', cfgname, timeout=600, deadlock=False)
+        rep.add_states(r)
+        rep.parts['tlc:' + cfgname] = dict(violated=r.violation, note='design-level counterexample of a known concurrent finding (emit after unlock): no arrival order explains the output; '
+                                                                       'the real operators are judged by MultiLin.tla on recorded runs')
+        if r.violation != 'Explained':
+            rep.inconclusive.append('%s was expected to violate Explained, TLC reports %s' % (cfgname, r.violation))
+
+
 def main(argv):
     rep = vlib.Report(PID, 'model_checking', argv)
     vlib.build_harness()
@@ -13,6 +33,7 @@ def main(argv):
     # group-by: one source, higher-order output - nothing lost, one group per key, also when the observer leaves a group or the outer stream on a group's birth
     parts_multi.run_single(rep, PID, rep.tier == 'thorough')
     # concurrent clause: some arrival order compatible with each source's own order must explain the output (MultiLin.tla)
+    conc_model_part(rep)
     th = rep.tier == 'thorough'
     tracecheck.run(rep, PID, 'drive-multilin', 'MultiLin', 'MultiLin_x.cfg', 1500 if th else 400, [rep.seed * 100 + i for i in range(5 if th else 1)], 'multilin', comp_key='Op', dfs=True)
     tracecheck.run(rep, PID, 'drive-multilin', 'MultiLin', 'MultiLin_x.cfg', 120 if th else 30, [rep.seed * 100 + 50 + i for i in range(3 if th else 1)], 'multilin-park', comp_key='Op', extra=['-park'], dfs=True)
